@@ -78,6 +78,9 @@ func c15Gen(tier string, emit func(c15Case)) {
 			// a caching router with room for two entries only: all URLs are built and requested in two passes
 			emit(c15Case{Kind: "build", Template: t, Style: st, Reg: "tiny-cache-two-passes"})
 			emit(c15Case{Kind: "build", Template: t, Style: st, Reg: "head-twin-cached"})
+			if strings.Contains(t, "{") {
+				emit(c15Case{Kind: "build", Template: t, Style: st, Reg: "strict-slash"})
+			}
 			// a later route that has one of the values as literal text where the template has its first variable
 			if strings.Count(t, "{") >= 2 {
 				emit(c15Case{Kind: "build", Template: t, Style: st, Reg: "literal-decoy-after"})
@@ -201,6 +204,12 @@ func c15Run(c c15Case, st *fw.Stats) []fw.Viol {
 		return vs
 	}
 	// ---- build round trip ----
+	strict := false
+	if c.Reg == "strict-slash" {
+		// StrictLastSlash router: the named route is the template WITH a trailing slash, a sibling without it exists too
+		strict = true
+		c.Template += "/"
+	}
 	vars := c15VarRe.FindAllStringSubmatch(c.Template, -1)
 	type vdef struct {
 		name string
@@ -228,6 +237,10 @@ func c15Run(c c15Case, st *fw.Stats) []fw.Viol {
 	}
 	if c.Reg == "head-twin-cached" {
 		r = rux.New(rux.CachingWithNum(8))
+	}
+	if strict {
+		r = rux.New(rux.StrictLastSlash)
+		r.GET(strings.TrimSuffix(c.Template, "/"), func(ctx *rux.Context) { seenIdx = 7 })
 	}
 	var seenViaParam map[string]string
 	th := func(ctx *rux.Context) {
@@ -342,7 +355,14 @@ func c15Run(c c15Case, st *fw.Stats) []fw.Viol {
 		for k, m := range vars {
 			spelled = strings.Replace(spelled, m[0], vals[k], 1)
 		}
-		if refmodel.Norm(spelled, false) != spelled {
+		if strict {
+			// a tuple whose path the slash-less sibling (registered first) matches as well belongs to the sibling
+			if sib, err := refmodel.CachedPattern(refmodel.Norm(strings.TrimSuffix(prefix+c.Template, "/"), true)); err == nil && sib.Matches(spelled) {
+				st.Inc("skipped_sibling_matches_too", 1)
+				return
+			}
+		}
+		if refmodel.Norm(spelled, strict) != spelled {
 			st.Inc("skipped_not_normal_form", 1)
 			return
 		}
@@ -472,7 +492,7 @@ func c15Run(c c15Case, st *fw.Stats) []fw.Viol {
 var c15Spec = fw.Spec[c15Case]{
 	ID:    "C15",
 	Level: "model_checking",
-	Rule: "complete product: 24 named templates (static - also with '#', '?', '%25', ';', '&' and blanks in the literal text -, leading variable next to dynamic decoys whose literal first segment is one of the values, default / custom / global variable regexes, 1-3 variables, literal prefix and suffix around a variable, '.' in the literal text - also more dots than the shortest values have bytes) x ALL value tuples over 19 values (spaces, non-ASCII, %, ?, #, ;, encoded slash, dots, slash where the regex admits it) that satisfy the variables' regexes x 4 argument styles (M map, key/value pairs, BuildRequestURL builder, one builder object reused across routes) x 8 registrations (on a caching router next to a second named route of the same template that serves HEAD, every URL asked with HEAD first; followed by a later route that spells the template's first variable as a literal equal to one of the values; on a caching router with two cache slots, every URL built and requested in two passes; on a caching router that answered 'no route' for every URL before the route existed; top-level AddNamed; NewNamedRoute + ToURL() + AddRoute inside a group; named after registration with NamedTo; after a POST route with the same skeleton and variable names but other variable regexes) x 4 sets of extra query arguments; " +
+	Rule: "complete product: 24 named templates (static - also with '#', '?', '%25', ';', '&' and blanks in the literal text -, leading variable next to dynamic decoys whose literal first segment is one of the values, default / custom / global variable regexes, 1-3 variables, literal prefix and suffix around a variable, '.' in the literal text - also more dots than the shortest values have bytes) x ALL value tuples over 19 values (spaces, non-ASCII, %, ?, #, ;, encoded slash, dots, slash where the regex admits it) that satisfy the variables' regexes x 4 argument styles (M map, key/value pairs, BuildRequestURL builder, one builder object reused across routes) x 9 registrations (on a StrictLastSlash router with the template ending in a slash next to its slash-less sibling; on a caching router next to a second named route of the same template that serves HEAD, every URL asked with HEAD first; followed by a later route that spells the template's first variable as a literal equal to one of the values; on a caching router with two cache slots, every URL built and requested in two passes; on a caching router that answered 'no route' for every URL before the route existed; top-level AddNamed; NewNamedRoute + ToURL() + AddRoute inside a group; named after registration with NamedTo; after a POST route with the same skeleton and variable names but other variable regexes) x 4 sets of extra query arguments; " +
 		"each built URL is matched (Match on u.Path) and requested (ServeHTTP on a request parsed from u.String()); naming: all sequences of <=3 (thorough 4) naming operations over 2 names x {AddNamed, NewNamedRoute+AddRoute, route.NamedTo on a new route, NamedTo renaming the first / the previous route}; non-trivial = a template with variables / a sequence of >=2 naming operations",
 	Assume: []string{"values containing '{' or '}' are excluded: Build substitutes in Go map order, which the harness cannot own", "routes without optional parts, as the statement says", "value tuples that spell a path which is not in normal form (white space or '/' at the very end) are skipped: path normalisation (C11) ignores those characters by design"},
 	Bounds: func(tier string) map[string]any {
